@@ -125,7 +125,9 @@ def run(ctx: vlib.Ctx):
                                            "C17_collection_typerefs_are_identifiers", "C17_class_reference_is_chain", "C17_local_class_alias",
                                            "C17_clean_id_model_is_kernel", "C17_local_render_is_type_ident", "C17_local_alias_binding_partial",
                                            "C17_local_alias_binding_refuted"], kernels=["K42", "K44"])
-    ctx.coqchk(["VerifProps.C17_closed", "VerifProps.C17_cleanid", "VerifProps.C17_typeref"])
+    ctx.theorems("props/C17_imports.vo", ["C17_imports_cover_partial", "C17_imports_cover_refuted", "C17_visited_imports", "C17_chain_root_is_package",
+                                           "C17_chain_root_resolves"], kernels=["K46"])
+    ctx.coqchk(["VerifProps.C17_closed", "VerifProps.C17_cleanid", "VerifProps.C17_typeref", "VerifProps.C17_imports"])
     ctx.trusted += [
         "harness/c17_translate.py: Python ast -> Closed.v AST (fail-closed; interning of names is injective by construction); "
         "the abstraction itself: expressions = tree of loaded names, attribute access / calls / operators never bind names",
@@ -152,6 +154,11 @@ def run(ctx: vlib.Ctx):
         "an AST scan by NAME (type_name / get_type_name_identifier / clean_id must not be aliased: checked) whose classification rules (build-time raise, "
         "print, `!r`-only variable, statically quoted text, clean_id(..) wrapper, argument kinds of the raw sites) are the trusted part; a rendering that "
         "reaches generated code through a variable is followed one assignment only when it is an f-string spliced by `!r`, otherwise the call site itself is judged",
+        "kernel K46 (tools/kernels/k46_type_modules.py): add_type_modules / ensure_module_imported / ensure_object_imported read after checking that their "
+        "bodies are exactly the expected ones (fail closed), as a function of what the method reads from a type (harness/c17_imports.py to_mty: origin is "
+        "MappingProxyType, name of inspect.getmodule(t), is Literal, literal values / __args__ / __constraints__ / __bound__, recursively; Annotated and "
+        "deeper than 7 levels skipped); compared per run with the real methods run on a recording globals (sequence of setdefault calls, module objects "
+        "checked against sys.modules) on the field annotations of the generated schemas",
         "NsBind.clean_id models re.sub(r'\\W|^(?=\\d)', '_', s) for ASCII input only (compared with the implementation each run)",
     ]
     ctx.assumptions += [
@@ -234,6 +241,7 @@ def run(ctx: vlib.Ctx):
     # ---- type_name model vs implementation, and vs the text of the generated error paths
     render_corr(ctx, all_res)
     k44_corr(ctx, all_res)
+    k46_corr(ctx, all_res)
 
     # ---- per-program kernel-checked closedness (translation validation)
     t_workers = time.time() - t_start
@@ -575,6 +583,50 @@ def k44_corr(ctx, all_res):
             ctx.not_shown("translation validation K44", f"rendering, real text, real alias: {[cases[i] for i in bad[:6]]!r}")
     ctx.obligation("the real get_type_name_identifier was exercised on local and non-local classes", n_real > 0 and has_local,
                    f"{n_real} real calls")
+    ctx.count(n=len(cases))
+
+
+def k46_corr(ctx, all_res):
+    """translated kernel K46 (add_type_modules as a function of what it reads from a type) vs the real method on the field annotations
+    of the generated schemas + a fixed list of typing shapes"""
+    if not ctx.kernel_report.get("K46", {}).get("ok"):
+        return
+    from harness import c17_imports
+    cases = []
+    for fam, r in all_res:
+        for term, ops in r.get("import_cases", []):
+            cases.append((term, tuple((n, bool(m)) for n, m in ops)))
+    n_real = len(cases)
+    import collections, decimal, enum, pathlib, types, typing
+    T1 = typing.TypeVar("T1", int, decimal.Decimal)
+    T2 = typing.TypeVar("T2", bound=pathlib.PurePath)
+    for t in [int, None, type(None), typing.Any, typing.List[int], typing.Dict[str, typing.Optional[decimal.Decimal]], types.MappingProxyType[str, int],
+              typing.Literal[1, enum.Enum, "x"], typing.Literal[1, typing.Literal[2, 3]], typing.Tuple[int, ...], T1, T2, list[pathlib.Path], int | None,
+              collections.OrderedDict[str, decimal.Decimal], typing.Union[int, str, None], typing.DefaultDict[str, types.MappingProxyType[str, T1]],
+              typing.List[T2], collections.abc.Mapping[str, typing.Tuple[()]], typing.FrozenSet[enum.IntFlag]]:
+        c = c17_imports.case(t)
+        if c is not None:
+            cases.append((c[0], tuple(c[1])))
+    cases = list(dict.fromkeys(cases))
+    ctx.hist("type-imports", "annotations-read", n_real)
+
+    def ops(o):
+        return "[" + "; ".join(f"OSet {vlib.coq_str(n)} {'true' if m else 'false'}" for n, m in o) + "]"
+    ccases = [f"({t}, {ops(o)})" for t, o in cases]
+    defs = ("Definition op_eqb (a b : op) : bool := match a, b with OSet n1 m1, OSet n2 m2 => String.eqb n1 n2 && Bool.eqb m1 m2 end.\n"
+            "Fixpoint ops_eqb (a b : list op) : bool := match a, b with [], [] => true | x :: r, y :: s => op_eqb x y && ops_eqb r s | _, _ => false end.\n")
+    bad, log = vlib.coq_bad_idx(f"c17_k46_{ctx.seed}", "", "From VerifGen Require Import K46.", defs, ccases,
+                                "fun c => ops_eqb (K46.add_type_modules (fst c)) (snd c)", "mty * list op", shard=600, needs=["gen/K46.vo"])
+    name = ("K46 (add_type_modules / ensure_module_imported / ensure_object_imported translated: sequence of globals.setdefault calls) vs the real methods on a "
+            "recording globals, on the field annotations of the generated schemas + typing shapes")
+    if bad is None:
+        ctx.correspondence(name, len(cases), -1, log)
+        ctx.not_shown("translation validation K46", log)
+    else:
+        ctx.correspondence(name, len(cases), len(bad), str([cases[i] for i in bad[:3]])[:1500])
+        if bad:
+            ctx.not_shown("translation validation K46", f"what the type looks like, real setdefault sequence: {[cases[i] for i in bad[:3]]!r}"[:3000])
+    ctx.obligation("the real add_type_modules was exercised on annotations of the generated schemas", n_real > 0, f"{n_real} annotations")
     ctx.count(n=len(cases))
 
 
